@@ -241,6 +241,129 @@ fn c15_world(rng: &mut Rng, n: usize, anchor_idx: usize) -> (World, Vec<Req>, Ve
     (f.w, root_reqs, exact)
 }
 
+/// Second family: the pair is required through a *late, mandatory* revealer - every candidate of a package F
+/// the root requires needs (through its own single-candidate package D) exactly p_j - while constrainer
+/// packages A_m, some of whose preferred candidates constrain package 0 or F away and are abandoned after
+/// conflicts, make the solver restart and backtrack. Candidates of package 0 are therefore discovered at deep
+/// levels, also while they are temporarily assigned false.
+fn c15_embedded_world(rng: &mut Rng, n: usize, i: usize, j: Option<usize>) -> (World, Vec<Req>) {
+    let mut f = Fam {
+        w: World::default(),
+        next_name: 1,
+        next_s: n as u32,
+        next_vs: 0,
+        next_union: 0,
+    };
+    let cands: Vec<u32> = (0..n as u32).collect();
+    let mut order = cands.clone();
+    rng.shuffle(&mut order);
+    let mut rank = cands.clone();
+    rng.shuffle(&mut rank);
+    for &c in &cands {
+        f.w.solvables.insert(c, Solvable { name: 0, deps: known(vec![], vec![]) });
+    }
+    f.w.packages.insert(
+        0,
+        Package {
+            candidates: order,
+            rank,
+            favored: None,
+            locked: None,
+            excluded: vec![],
+            hint: if rng.chance(1, 4) { Hint::All } else { Hint::None },
+            missing: false,
+        },
+    );
+    let exact_i = f.vs(0, vec![cands[i]]);
+    // what the late revealers require: exactly p_j (pair problems) or a set containing p_i (single problems)
+    let late_target = match j {
+        Some(j) => f.vs(0, vec![cands[j]]),
+        None => {
+            let mut g: Vec<u32> = cands.iter().copied().filter(|_| rng.chance(1, 2)).collect();
+            g.push(cands[i]);
+            f.vs(0, g)
+        }
+    };
+    // F: every candidate needs its own D_k, which needs the late target
+    let k = rng.range(2, 3);
+    let f_name = f.next_name;
+    f.next_name += 1;
+    let f_cands: Vec<u32> = (0..k as u32).map(|x| f.next_s + x).collect();
+    f.next_s += k as u32;
+    let mut f_deps = Vec::new();
+    for (idx, fc) in f_cands.iter().enumerate() {
+        let (dn, dc) = f.pkg(vec![known(vec![Req::Single(late_target)], vec![])], if rng.chance(1, 4) { Hint::All } else { Hint::None });
+        let d_vs = f.vs(dn, dc);
+        let mut reqs = vec![Req::Single(d_vs)];
+        // a trap on the preferred candidates: G's only candidate constrains F away from this candidate
+        if idx + 1 < f_cands.len() && rng.chance(1, 2) {
+            let others: Vec<u32> = f_cands.iter().copied().filter(|x| x != fc).collect();
+            let not_me = f.vs(f_name, others);
+            let (gn, gc) = f.pkg(vec![known(vec![], vec![not_me])], Hint::None);
+            let g_vs = f.vs(gn, gc);
+            if rng.chance(1, 2) {
+                reqs.insert(0, Req::Single(g_vs));
+            } else {
+                reqs.push(Req::Single(g_vs));
+            }
+        }
+        f_deps.push(known(reqs, vec![]));
+    }
+    for (fc, d) in f_cands.iter().zip(f_deps) {
+        f.w.solvables.insert(*fc, Solvable { name: f_name, deps: d });
+    }
+    f.w.packages.insert(
+        f_name,
+        Package {
+            candidates: f_cands.clone(),
+            rank: f_cands.clone(),
+            favored: None,
+            locked: None,
+            excluded: vec![],
+            hint: Hint::None,
+            missing: false,
+        },
+    );
+    let f_any = f.vs(f_name, f_cands.clone());
+    let mut root_reqs = vec![Req::Single(f_any)];
+    // constrainer packages
+    for _ in 0..rng.range(1, 3) {
+        let kc = rng.range(2, 3);
+        let mut deps = Vec::new();
+        for c in 0..kc {
+            let mut cons = Vec::new();
+            if c + 1 < kc {
+                // preferred candidates constrain package 0 (and sometimes F) to a random subset
+                if rng.chance(2, 3) {
+                    let mut sub: Vec<u32> = cands.iter().copied().filter(|_| rng.chance(1, 2)).collect();
+                    if rng.chance(1, 2) {
+                        sub.push(cands[i]);
+                    }
+                    cons.push(f.vs(0, sub));
+                }
+                if rng.chance(1, 3) {
+                    let sub: Vec<u32> = f_cands.iter().copied().filter(|_| rng.chance(1, 2)).collect();
+                    cons.push(f.vs(f_name, sub));
+                }
+            }
+            deps.push(known(vec![], cons));
+        }
+        let (an, ac) = f.pkg(deps, Hint::None);
+        let a_any = f.vs(an, ac);
+        root_reqs.push(Req::Single(a_any));
+    }
+    // exactly p_i: at the root or behind a revealer
+    if rng.chance(1, 2) {
+        root_reqs.push(Req::Single(exact_i));
+    } else {
+        let (rn, rc) = f.pkg(vec![known(vec![Req::Single(exact_i)], vec![])], Hint::None);
+        let r_vs = f.vs(rn, rc);
+        root_reqs.push(Req::Single(r_vs));
+    }
+    rng.shuffle(&mut root_reqs);
+    (f.w, root_reqs)
+}
+
 impl Property for C15 {
     fn id(&self) -> &'static str {
         "C15"
@@ -252,7 +375,7 @@ impl Property for C15 {
         }
     }
     fn rule(&self) -> &'static str {
-        "workload family run through the simulator: one package with n candidates (n in 1..40 quick, 1..130 thorough, biased to 2^k-1, 2^k, 2^k+1), revealed by seeded covering version sets (singletons, ranges, overlapping subsets, full set; all containing the anchor) spread over the root and over revealer solvables, registration order varied by rank permutation, requirement order and (async) completion order; per seed 8 pair problems 'exactly p_i and exactly p_j' and 3 single problems (all pairs when n <= 24 in the thorough tier); oracle: pair => Unsolvable, single => Ok(S) with exactly p_i from the package; non-trivial = n >= 3; distinct = (world, trace, plan) hash"
+        "workload families run through the simulator: (1) one package with n candidates (n in 1..40 quick, 1..130 thorough, biased to 2^k-1, 2^k, 2^k+1), revealed by seeded covering version sets (singletons, ranges, overlapping subsets, full set; all containing the anchor) spread over the root and over revealer solvables, registration order varied by rank permutation, requirement order and (async) completion order; per seed 8 pair problems 'exactly p_i and exactly p_j' and 3 single problems (all pairs when n <= 24 in the thorough tier); the revealing requirements sit at the root, behind chains of revealer solvables or behind unions whose other alternative is dead, and an optional decoy temporarily constrains the package and is abandoned after a conflict; (2) embedded family (one seed in three, n <= 8): the second candidate is required through a late mandatory revealer below a package with several candidates, next to constrainer packages that force restarts and backtracking, so candidates are discovered at deep levels and while assigned false; oracle (reference-decided): a problem that needs two candidates of one package => Unsolvable, otherwise Ok(S) valid with one solvable per package; non-trivial = n >= 3; distinct = (world, trace, plan) hash"
     }
     fn gen(&self, seed: u64, tier: Tier) -> Vec<Scenario> {
         let mut r = Rng::stream(seed, "world");
@@ -289,7 +412,27 @@ impl Property for C15 {
         let mut out = Vec::new();
         let mut cr = Rng::stream(seed, "config");
         let world_seed = r.next_u64();
+        let embedded = r.chance(1, 3);
         for (i, j) in cases {
+            if embedded {
+                let mut wr = Rng::new(r.next_u64());
+                let ne = n.min(8);
+                let ie = i % ne;
+                let je = j.map(|j| j % ne).filter(|j| *j != ie).or(j.map(|_| (ie + 1) % ne)).filter(|_| ne >= 2);
+                let (w, reqs) = c15_embedded_world(&mut wr, ne, ie, je);
+                let mut sc = Scenario::basic(
+                    w,
+                    ProblemSpec {
+                        requirements: reqs,
+                        constraints: vec![],
+                        soft: vec![],
+                    },
+                );
+                gen_config(&mut cr, &mut sc, None);
+                sc.hash_salt = cr.next_u64();
+                out.push(sc);
+                continue;
+            }
             // the same covering structure for all cases of a seed, anchored at i
             let mut wr = Rng::new(world_seed);
             let (w, mut reqs, exact) = c15_world(&mut wr, n, i);
